@@ -3,7 +3,7 @@ import Mathlib.Data.Matrix.Block
 /-! What a truncated SVD discards.  Given ANY factorisation `X = Q diag(σ) Zᵀ` with orthonormal columns whose index set
 is split into kept (`a`) and discarded (`b`) triplets, the truncation `Q_a diag(σ_a) Z_aᵀ` (what `Tsvd` returns: the same
 slice of all three factors) differs from `X` by `Q_b diag(σ_b) Z_bᵀ`, whose squared Frobenius norm is `Σ_b σ²`.
-(That no other rank-`|a|` matrix does better — Eckart–Young — is NOT proved.) -/
+(That no other rank-`|a|` matrix does better — Eckart–Young — is proved in `PkLA/EckartYoung.lean`.) -/
 namespace PkLA
 open Matrix
 
